@@ -97,7 +97,9 @@ CMR_ERROR CMRregularityDecomposeSeriesParallel(CMR* cmr, DecompositionTask* task
       CMRdbgMsg(8, "-> applying reduction (%s,%s) as a 2-separation.\n", CMRelementString(reductions[0].element, NULL),
         CMRelementString(reductions[0].mate, buffer));
 
-      assert(!separation);
+      /* If there was exactly one SP reduction, then the search went on and may have found a 2-separation. */
+      if (separation)
+        CMR_CALL( CMRsepaFree(cmr, &separation) );
       size_t parentNumRows = dec->matrix->numRows;
       size_t parentNumColumns = dec->matrix->numColumns;
       CMR_CALL( CMRsepaCreate(cmr, parentNumRows, parentNumColumns, &separation) );
